@@ -9,6 +9,7 @@ import (
 	"strings"
 	"time"
 
+	"github.com/RoaringBitmap/roaring"
 	"github.com/akrennmair/updog"
 	"go.etcd.io/bbolt"
 )
@@ -351,6 +352,13 @@ func runIdxCase(o *Oracle, c *IdxCase, rep *Report, fl idxFlags) {
 			if want := o.Ask("idx image"); want != got {
 				viol("input", "image-mismatch", "bolt key set / row counter differs from the model image", want, got)
 			}
+			if c.Writer == "big" {
+				// the big writer's own model (temp keys, sorted cursor walk) predicts the same file
+				if want := o.Ask("idx imagebig"); want != got {
+					viol("input", "image-mismatch-bigmodel", "bolt key set / row counter differs from the big-writer model image", want, got)
+				}
+				rep.Count("bigwriter-model-images")
+			}
 		}
 	}
 
@@ -389,6 +397,14 @@ func runIdxCase(o *Oracle, c *IdxCase, rep *Report, fl idxFlags) {
 				viol("input", "schema-spec-mismatch", "GetSchema differs from the specification", want, got)
 			}
 		}
+	}
+
+	if fl.prop == "C03" || fl.prop == "C04" {
+		tp := path + ".trace"
+		data, _ := os.ReadFile(path)
+		os.WriteFile(tp, data, 0644)
+		traceTie(o, tp, c, rep)
+		os.Remove(tp)
 	}
 
 	var fresh *updog.Index
@@ -475,6 +491,61 @@ func runIdxCase(o *Oracle, c *IdxCase, rep *Report, fl idxFlags) {
 			if f != got {
 				viol("history", sigBase+":differs-from-fresh", fmt.Sprintf("query %d (%s) on the used index differs from a fresh uncached index", qi, toks), f, got)
 			}
+		}
+	}
+}
+
+
+// recCache is an unbounded map cache that logs every call (same format as the oracle's logging cache).
+type recCache struct {
+	m   map[uint64]*roaring.Bitmap
+	log []string
+}
+
+func (c *recCache) Get(key uint64) (*roaring.Bitmap, bool) {
+	bm, ok := c.m[key]
+	if ok {
+		c.log = append(c.log, fmt.Sprintf("g%016x:h", key))
+	} else {
+		c.log = append(c.log, fmt.Sprintf("g%016x:m", key))
+	}
+	return bm, ok
+}
+
+func (c *recCache) Put(key uint64, bm *roaring.Bitmap) {
+	c.m[key] = bm
+	c.log = append(c.log, fmt.Sprintf("p%016x", key))
+}
+
+// traceTie executes the history on an index whose cache records every Get/Put and compares the call sequence
+// (keys, hits/misses, order) and the counts with the model's evalC over a logging map cache.
+func traceTie(o *Oracle, path string, c *IdxCase, rep *Report) {
+	rc := &recCache{m: map[uint64]*roaring.Bitmap{}}
+	var opts []updog.IndexOption
+	opts = append(opts, updog.WithCache(rc))
+	if c.Preload {
+		opts = append(opts, updog.WithPreloadedData())
+	}
+	idx, err := updog.OpenIndex(path, opts...)
+	if err != nil {
+		return
+	}
+	defer idx.Close()
+	o.Send("idx ctrace-reset")
+	for qi := range c.Queries {
+		q := &c.Queries[qi]
+		rc.log = rc.log[:0]
+		res, err := idx.Execute(toQuery(q))
+		got := "err"
+		if err == nil {
+			got = fmt.Sprintf("ok %d", res.Count)
+		}
+		got += " " + strings.Join(rc.log, " ")
+		want := o.Ask("idx ctrace " + q.Toks())
+		rep.Count("cache-call-traces-compared")
+		if strings.TrimSpace(got) != strings.TrimSpace(want) {
+			rep.Violate(Violation{Kind: "obligation", Signature: "C03:cache-call-sequence-differs-from-model", What: fmt.Sprintf("query %d (%s): sequence of cache Get/Put calls differs from the model's evalC", qi, q.Toks()), Expected: trunc(want, 1200), Actual: trunc(got, 1200), Case: c})
+			return
 		}
 	}
 }
